@@ -307,6 +307,15 @@ CULT_FILLERS = {'*': [' ; ', ' | '], 'en-us': [' ; ', ' | ', ' and also ', ' but
                 'es-mx': [' ; ', ' | ', ' y también '], 'fr-fr': [' ; ', ' | ', ' et aussi ', ' mais pas '], 'pt-br': [' ; ', ' | ', ' e também ', ' mas não '],
                 'it-it': [' ; ', ' | ', ' e anche ', ' ma non '], 'de-de': [' ; ', ' | ', ' und auch ', ' aber nicht '], 'nl-nl': [' ; ', ' | ', ' en ook ', ' maar niet '],
                 'zh-cn': ['；', ' | ', '，还有', ' ; '], 'ja-jp': ['；', ' | ', '、そして', ' ; ']}
+INSIDE_RANGE = {
+    'en-us': (['from {a} to {b} {m}', 'between {a} and {b} {m}', '{m} {a} to {b}', '{m} {a}-{b}', 'from {m} {a} to {m2} {b}', '{m} {a} - {m2} {b}'], [x for x in dtlib.MON_EN]),
+    'es-es': (['del {a} al {b} de {m}', 'entre el {a} y el {b} de {m}', 'del {a} de {m} al {b} de {m2}'], dtlib.CULT['es-es']['months']),
+    'fr-fr': (['du {a} au {b} {m}', 'entre le {a} et le {b} {m}', 'du {a} {m} au {b} {m2}'], dtlib.CULT['fr-fr']['months']),
+    'pt-br': (['de {a} a {b} de {m}', 'entre {a} e {b} de {m}'], dtlib.CULT['pt-br']['months']),
+    'it-it': (['dal {a} al {b} {m}', 'dal {a} {m} al {b} {m2}'], dtlib.CULT['it-it']['months']),
+    'de-de': (['vom {a}. bis {b}. {m}', 'vom {a}. {m} bis {b}. {m2}'], dtlib.CULT['de-de']['months']),
+    'nl-nl': (['van {a} tot {b} {m}', 'van {a} {m} tot {b} {m2}'], dtlib.CULT['nl-nl']['months']),
+}
 EN_MODS = ['before', 'after', 'since', 'until', 'by', 'around', 'about', 'starting', 'starting from', 'no later than', 'prior to', 'since around', 'since about', 'before around',
            'after about', 'after around', 'starting around', 'starting from around', 'until about', 'until around', 'from around', 'by around']
 CULT_MOD_EXPR = {
@@ -367,6 +376,7 @@ def plan(pid, tier, seed):
         for cu in HOUR_TEMPLATES:
             jobs.append({'name': 'hourgrid-%s' % cu, 'kind': 'hourgrid', 'culture': cu, 'weight': 2})
         jobs.append({'name': 'modifiers', 'kind': 'modifiers', 'weight': 2})
+        jobs.append({'name': 'insiderange', 'kind': 'insiderange', 'weight': 2})
     for g in gens:
         try:
             mod = importlib.import_module('rtmon.checkers.' + g)
@@ -651,6 +661,28 @@ def run(pid, job, ctx):
                 for mt, m in models:
                     try:
                         lib.call(m, mt, q, dtlib.rand_ref(r))
+                    except Exception:
+                        pass
+    elif kind == 'insiderange':
+        # year-less ranges ('from 4 to 22 november', 'from october 30 to november 5', weekday and month ranges) asked with the reference
+        # before, ON the first day, INSIDE, on the last day and after the range: start stays before end in both readings
+        r = ctx.rng('insiderange')
+        n = 30 if ctx.tier == 'quick' else 400
+        for cu, (tpls, months) in INSIDE_RANGE.items():
+            m = dtlib.dt_model(cu)
+            for _ in range(n):
+                mo = r.randrange(1, 13)
+                a = r.randrange(1, 20)
+                b = r.randrange(a + 1, 28)
+                y = r.randrange(1951, 2090)
+                t = r.choice(tpls)
+                mo2 = mo % 12 + 1
+                q = t.format(a=a, b=b, m=months[mo - 1], m2=months[mo2 - 1])
+                two_months = '{m2}' in t
+                for R in (dt.datetime(y, mo, a) - dt.timedelta(days=r.randrange(1, 40)), dt.datetime(y, mo, a), dt.datetime(y, mo, a, 13, 30), dt.datetime(y, mo, min(a + 1, b)),
+                          dt.datetime(y, mo2 if two_months else mo, b, 23, 59, 59), dt.datetime(y, mo2 if two_months else mo, b) + dt.timedelta(days=r.randrange(1, 40))):
+                    try:
+                        m.parse(q, R)
                     except Exception:
                         pass
     elif kind == 'modifiers':
